@@ -1,5 +1,6 @@
 import DriverLib.Ops
 import DriverLib.ShapeOps
+import DriverLib.IndexOps
 open Lean
 namespace Drv
 open Gonnx
@@ -17,6 +18,8 @@ def runOp (op : String) (attrs : Json) (ins : List (Option DT)) : Answer :=
     let ins := padTo ins padded.length
     if isArith op || isCmp op || isLogic op then runOpBinary op attrs ins
     else if isShapeOp op then runShapeOp op attrs ins
+    else if isIndexOp op then runIndexOp op attrs ins
+    else if op == "Concat" then runConcat attrs ins
     else { model := { status := "unmodelled" } }
 
 end Drv
